@@ -15,6 +15,19 @@ CLAIMED["C03"] = (
     "Decides, for every path of the request validator, that success requires presence checks, key-type equalities, unmarshalling of the signed bytes and ed25519.Verify under the key named inside those bytes over exactly (Bundle, BundleSignature); that the only time comparisons are NotBefore+nbSkew>now and NotAfter+naSkew<now on one clock reading; that in FetchNodeCredentials/AuthorizeNode no storage, wrapper, decrypt or minting call is reachable before validation succeeded; and that created requests sign the bundle they carry with window [now, now+DefaultFetchCredentialsLifetime]. Ed25519 and bit-level mutation outcomes are not decided.",
     _T, "DESIGN.md 5/C03")
 
+CLAIMED["C02"] = (
+    "SSA guard-cut reachability in the VerifyConnection and GetConfigForClient closures and in Accept + literal-field constraints on tls.Config + block-exclusivity and store-on-every-path checks for the verification waiver + C05's gate",
+    "Decides, for every path: the VerifyConnection closure accepts only with a peer certificate that verified against the caller's pool and matches the expected key, or under the fetch-only waiver; that waiver is created only under the fetch-prefix test and no path joins the fetch and authentication branches; the request decoded from the peer's bytes reaches the certificate function only with SkipVerification overwritten by false; the TLS configuration pins the request's certificate key; Accept returns a connection only after a successful handshake and never on the fetch protocol; NextProtos is the tested loop element. Plus C05's gate. crypto/tls and crypto/x509 are trusted; histories are not decided.",
+    _T + "; assumption A3 (base TLS configuration lists no library-prefixed protocol)", "DESIGN.md 5/C02")
+CLAIMED["C06"] = (
+    "SSA guard-cut reachability with time-form normalisation + field-store allow-list/uses-of-secret check in the token creator + sibling agreement (ID derivation, AAD operands)",
+    "Decides, for every path of the token validator, that authorisation happens only after: loading the entry under the ID derived from both token halves, non-nil/non-zero creation time, the expiry test creation+maxLifetime vs now, successful removal of that entry, and the existing-record test; that the creator persists only creation time, state and derived ID and uses the HMAC key half only as key; that loading derives the creation time from the (sealed) marshalled bytes with matching AAD. The wrapper-configured-but-unsealed-record path is a listed known finding (D10). Concurrency of token use and HMAC strength are not decided.",
+    _T, "DESIGN.md 5/C06")
+CLAIMED["C10"] = (
+    "SSA guard-cut reachability with nil-phi sensitivity + value provenance of records, option list and reply operands + call-graph write effects",
+    "Decides, for every path of rotation.RotateNodeCredentials, that AuthorizeNode is reached only after DecryptMessage of the request payload succeeded under a record loaded for the identified node, with the decrypted inner request, carrying over that record's state; that the reply is EncryptMessage(FetchNodeCredentials(inner), clone of that record) and encryption never uses a previous key; that AuthorizeNode keeps its refusals; and that nothing else writes storage or node-record fields. Decryption semantics and replay histories are not decided.",
+    _T, "DESIGN.md 5/C10")
+
 _PENDING = "check not built yet in this round (design in DESIGN.md section 5); will be claimed once its rules are exact on the repaired tree"
 for _p in ["C01","C02","C03","C04","C06","C07","C08","C09","C10","C11","C12","C13","C14","C15","C16","C17","C18","C19","C20"]:
     if _p not in CLAIMED:
